@@ -362,7 +362,10 @@ def build_plot_call(spec, fx, M, D):
         if any(d.ndim != 2 or d.shape[0] == 0 for d in ds):
             raise Skip("empty")
         arg = ds if (spec.get("as_list", True) or len(ds) > 1) else ds[0]
-        opts = dict(spec.get("opts") or {})
+        import copy as _copy
+        opts = _copy.deepcopy(spec.get("opts") or {})       # lists in it (labels, plot_only, xy_range) are the caller's objects
+        if isinstance(opts.get("labels"), list) and len(opts["labels"]) != len(ds):
+            raise InvalidCase("labels")
         if opts.get("colormap", "default") not in ("default", "ggplot", "bmh"):
             raise InvalidCase("colormap")
         if spec.get("ax") == "none":
@@ -381,8 +384,8 @@ def build_plot_call(spec, fx, M, D):
                     data = axes_data(fig.axes[0], style=True)
                 plt.close("all")
                 return data
-            return call_none, [arg], None
-        return with_axes(lambda ax: V.plot_diagrams(arg, ax=ax, **opts), [arg])
+            return call_none, [arg, opts], None
+        return with_axes(lambda ax: V.plot_diagrams(arg, ax=ax, **opts), [arg, opts])
     if fn in ("bottleneck_matching", "wasserstein_matching"):
         a, b = np.asarray(D("a")), np.asarray(D("b"))
         if a.ndim != 2 or b.ndim != 2 or not (np.isfinite(a.astype(float)).all() and np.isfinite(b.astype(float)).all()):
